@@ -356,11 +356,14 @@ def build(case, hold_last_link=False, apply_move=True):
             kw.update([('prio', 0), ('note', ''), ('labels', []), ('ratio', 0.0), ('blocked', False)][i % 5:][:2])
             if i % 2 == 0:
                 kw['owner'] = _OWNER
+        par = t['parent']
+        if case.get('lateMove') and case['lateMove'][0] == i:
+            par = case['lateMove'][1]
+        via_ctor = t['member'] and par is not None and i % 4 == 1      # (one task in four is hung under its parent by the constructor)
+        if via_ctor:
+            kw['parent'] = objs[par]
         o = Task(t['id'], f"t{i}", resource=t['res'], **kw)
-        if t['member']:
-            par = t['parent']
-            if case.get('lateMove') and case['lateMove'][0] == i:
-                par = case['lateMove'][1]
+        if t['member'] and not via_ctor:
             if par is None:
                 w // o
             else:
